@@ -1,0 +1,93 @@
+// Copyright 2023 StreamNative, Inc.
+//
+// Licensed under the Apache License, Version 2.0 (the "License");
+// you may not use this file except in compliance with the License.
+// You may obtain a copy of the License at
+//
+//     http://www.apache.org/licenses/LICENSE-2.0
+//
+// Unless required by applicable law or agreed to in writing, software
+// distributed under the License is distributed on an "AS IS" BASIS,
+// WITHOUT WARRANTIES OR CONDITIONS OF ANY KIND, either express or implied.
+// See the License for the specific language governing permissions and
+// limitations under the License.
+
+//go:build verif
+
+// Package vhook provides named observation points for external runtime
+// monitors. Without the `verif` build tag every call site
+// `if vhook.Enabled { vhook.At(...) }` is removed at compile time.
+package vhook
+
+import (
+	"sync"
+	"sync/atomic"
+)
+
+// Enabled is true when built with `-tags verif`.
+const Enabled = true
+
+// Handler is invoked synchronously, in the goroutine that reached the point.
+type Handler func(point string, args ...any)
+
+var (
+	mu       sync.Mutex
+	handlers atomic.Pointer[map[string]Handler]
+	hits     sync.Map // point -> *atomic.Int64
+)
+
+// Set installs (or, with a nil handler, removes) the handler of a point.
+// The point "*" receives every point that has no handler of its own.
+func Set(point string, h Handler) {
+	mu.Lock()
+	defer mu.Unlock()
+	next := map[string]Handler{}
+	if cur := handlers.Load(); cur != nil {
+		for k, v := range *cur {
+			next[k] = v
+		}
+	}
+	if h == nil {
+		delete(next, point)
+	} else {
+		next[point] = h
+	}
+	handlers.Store(&next)
+}
+
+// Clear removes all handlers and resets the hit counters.
+func Clear() {
+	mu.Lock()
+	defer mu.Unlock()
+	handlers.Store(nil)
+	hits.Range(func(k, _ any) bool { hits.Delete(k); return true })
+}
+
+// Hits reports how many times each point has been reached since the last Clear.
+func Hits() map[string]int64 {
+	res := map[string]int64{}
+	hits.Range(func(k, v any) bool {
+		res[k.(string)] = v.(*atomic.Int64).Load() //nolint:revive
+		return true
+	})
+	return res
+}
+
+// At reports that the calling goroutine reached the named point.
+func At(point string, args ...any) {
+	c, ok := hits.Load(point)
+	if !ok {
+		c, _ = hits.LoadOrStore(point, &atomic.Int64{})
+	}
+	c.(*atomic.Int64).Add(1) //nolint:revive
+
+	m := handlers.Load()
+	if m == nil {
+		return
+	}
+	if h, ok := (*m)[point]; ok {
+		h(point, args...)
+	} else if h, ok := (*m)["*"]; ok {
+		h(point, args...)
+	}
+}
